@@ -7,6 +7,7 @@ import (
 	"encoding/json"
 	"encoding/xml"
 	"io"
+	"net/http"
 	"strings"
 )
 
@@ -33,6 +34,29 @@ func (r *verifDataEOFReader) Read(p []byte) (int, error) {
 	return n, nil
 }
 
+// verifWrapResp is the kind of writer a logging or compressing middleware puts
+// in c.Resp: it forwards everything and, like net/http, treats a Write without
+// a preceding WriteHeader as status 200.
+type verifWrapResp struct {
+	inner  http.ResponseWriter
+	wrote  bool
+	status int
+}
+
+func (w *verifWrapResp) Header() http.Header { return w.inner.Header() }
+func (w *verifWrapResp) WriteHeader(code int) {
+	if !w.wrote {
+		w.wrote, w.status = true, code
+	}
+	w.inner.WriteHeader(code)
+}
+func (w *verifWrapResp) Write(b []byte) (int, error) {
+	if !w.wrote {
+		w.WriteHeader(200)
+	}
+	return w.inner.Write(b)
+}
+
 type verifC19Obj struct {
 	XMLName xml.Name `xml:"p" json:"-"`
 	N       string   `xml:"n" json:"n"`
@@ -53,6 +77,18 @@ func verifHarness_C19_helpers() {
 	}
 	cb := "cb"
 	r := New()
+	// a middleware may have put its own writer in c.Resp (one that, like net/http's, commits 200
+	// on the first Write unless it was given a status): the helpers that write status and body
+	// through c.Resp give it the status they were given.  (The helpers built on Respond - JSON,
+	// JSONP, XML - record the status on the context's own writer instead; see DESIGN 7.4.)
+	var wrap *verifWrapResp
+	if !(kind >= 5 && kind <= 7) && verifChoice("wrappedWriter", 2) == 1 {
+		r.Use(func(c *Context) {
+			wrap = &verifWrapResp{inner: c.Resp}
+			c.Resp = wrap
+			c.Next()
+		})
+	}
 	nErrors := 0
 	r.GET("/x", func(c *Context) {
 		switch kind {
@@ -98,6 +134,9 @@ func verifHarness_C19_helpers() {
 		want = 204
 	}
 	verifAssert(rec.whCalls == 1 && rec.whStatus == want, "the helper produces the status it was given")
+	if wrap != nil {
+		verifAssert(wrap.status == want, "a writer installed by a middleware is given the same status")
+	}
 	switch kind {
 	case 0:
 		verifAssert(ct == "text/plain; charset=utf-8" && body == payload, "Text: text/plain and the given text")
